@@ -253,6 +253,9 @@ def make_world(situation):
         w.__enter__()
         w.power_on()
         w.connect_le()
+        # the peer's application accepts every CIS it is asked for
+        peer = w.devices[1]
+        peer.on('cis_request', lambda cis_link: w.loop.create_task(peer.accept_cis_request(cis_link)))
     else:
         w = World(2, classic=True)
         w.__enter__()
@@ -1043,9 +1046,9 @@ def seq_families():
     ]
     cig = [
         ('CIG', 'HCI_LE_Set_CIG_Parameters_Command', {'cig_id': 1, 'sdu_interval_c_to_p': 10000, 'sdu_interval_p_to_c': 10000, 'max_transport_latency_c_to_p': 10, 'max_transport_latency_p_to_c': 10,
-                                                       'cis_id': [1], 'max_sdu_c_to_p': [40], 'max_sdu_p_to_c': [40], 'phy_c_to_p': [1], 'phy_p_to_c': [1], 'rtn_c_to_p': [1], 'rtn_p_to_c': [1]}),
+                                                       'cis_id': [5], 'max_sdu_c_to_p': [40], 'max_sdu_p_to_c': [40], 'phy_c_to_p': [1], 'phy_p_to_c': [1], 'rtn_c_to_p': [1], 'rtn_p_to_c': [1]}),
         ('CIG2', 'HCI_LE_Set_CIG_Parameters_Command', {'cig_id': 1, 'sdu_interval_c_to_p': 10000, 'sdu_interval_p_to_c': 10000, 'max_transport_latency_c_to_p': 10, 'max_transport_latency_p_to_c': 10,
-                                                        'cis_id': [1, 2], 'max_sdu_c_to_p': [40, 40], 'max_sdu_p_to_c': [40, 40], 'phy_c_to_p': [1, 1], 'phy_p_to_c': [1, 1], 'rtn_c_to_p': [1, 1], 'rtn_p_to_c': [1, 1]}),
+                                                        'cis_id': [5, 6], 'max_sdu_c_to_p': [40, 40], 'max_sdu_p_to_c': [40, 40], 'phy_c_to_p': [1, 1], 'phy_p_to_c': [1, 1], 'rtn_c_to_p': [1, 1], 'rtn_p_to_c': [1, 1]}),
         ('RCIG', 'HCI_LE_Remove_CIG_Command', {'cig_id': 1}),
         ('CCIS', 'HCI_LE_Create_CIS_Command', {'cis_connection_handle': ['@cis'], 'acl_connection_handle': ['@acl']}),
         ('DCIS', 'HCI_Disconnect_Command', {'connection_handle': '@cis', 'reason': 0x13}),
@@ -1075,7 +1078,7 @@ def seq_families():
 
 
 # opcode -> completion event (code, LE sub-event) of remote requests answered with a Command Status
-SEQ_COMPLETIONS = {0x0419: (0x07, None), 0x041B: (0x0B, None), 0x041C: (0x23, None), 0x041D: (0x0C, None), 0x041F: (0x1C, None), 0x2016: (0x3E, 0x04)}
+SEQ_COMPLETIONS = {0x2064: (0x3E, 0x19), 0x0419: (0x07, None), 0x041B: (0x0B, None), 0x041C: (0x23, None), 0x041D: (0x0C, None), 0x041F: (0x1C, None), 0x2016: (0x3E, 0x04)}
 
 
 def seq_build(w, fam, label):
@@ -1090,13 +1093,17 @@ def seq_build(w, fam, label):
     c0 = w.controllers[0]
     acl = next(iter(list(c0.le_connections.values()) + list(c0.classic_connections.values())), None)
     acl_h = acl.handle if acl is not None else 0x0EFF
-    # the CIS handle the controller allocated for the CIG, if any (0x0EFE = none)
+    # the CIS handle the controller returned for the CIG most recently configured, if any (0x0EFE = none)
     cis_h = 0x0EFE
-    for attr in ('central_cis_links', 'cis_links'):
-        links = getattr(c0, attr, None)
-        if links:
-            cis_h = sorted(links)[0]
-            break
+    tap = getattr(w, 'seq_tap', None)
+    if tap is not None:
+        for e in tap.log:
+            b = e[2] if e[0] == 'evt' else b''
+            # Command Complete of LE Set CIG Parameters (0x2062) / LE Remove CIG (0x2065)
+            if len(b) >= 7 and b[1] == 0x0E and struct.unpack_from('<H', b, 4)[0] == 0x2062 and b[6] == 0 and len(b) >= 11 and b[8] > 0:
+                cis_h = struct.unpack_from('<H', b, 9)[0]
+            elif len(b) >= 7 and b[1] == 0x0E and struct.unpack_from('<H', b, 4)[0] == 0x2065 and b[6] == 0:
+                cis_h = 0x0EFE
 
     def sub(v):
         if v == '@acl':
@@ -1119,7 +1126,7 @@ def run_seq_burst(fam, labels):
     w = make_world(seq_families()[fam][0])
     out = []
     try:
-        tap = Tap(w, 0)
+        tap = w.seq_tap = Tap(w, 0)
         host = w.hosts[0]
         cmds = [seq_build(w, fam, lab) for lab in labels]
         tasks = [w.loop.create_task(host.send_command(c)) for c in cmds]
@@ -1172,9 +1179,10 @@ def run_seq_case(fam, labels, mode='step'):
     w = make_world(world)
     out = []
     try:
-        tap = Tap(w, 0)
+        tap = w.seq_tap = Tap(w, 0)
         host = w.hosts[0]
         accepted = collections.Counter()
+        cis_asked = []
         for i, lab in enumerate(labels):
             cmd = seq_build(w, fam, lab)
             op = cmd.op_code
@@ -1198,6 +1206,8 @@ def run_seq_case(fam, labels, mode='step'):
             task.exception()
             if rs[0] == ('CS', 0) and op in SEQ_COMPLETIONS:
                 accepted[op] += 1
+                if op == 0x2064:
+                    cis_asked += list(cmd.cis_connection_handle)
         else:
             # let every accepted remote request conclude (page time-outs included)
             if accepted:
@@ -1209,6 +1219,10 @@ def run_seq_case(fam, labels, mode='step'):
                 if got != n:
                     out.append(('seq_proc_conclusions', {'family': fam, 'opcode': f'{op:#06x}', 'accepted': n, 'concluded': got},
                                 f'{fam} sequence {list(labels)}: {n} request(s) {op:#06x} accepted with Command Status 0 but {got} completion event(s) {code:#04x}{"" if subc is None else "/" + hex(subc)} delivered'))
+            cis_done = sorted(struct.unpack_from('<H', b, 5)[0] for b in tap.events(0x3E, 0x19) if len(b) >= 7)
+            if not out and cis_asked and cis_done != sorted(cis_asked):
+                out.append(('seq_proc_conclusions', {'family': fam, 'opcode': '0x2064', 'what': 'concluded_for_another_handle'},
+                            f'{fam} sequence {list(labels)}: LE Create CIS accepted for handle(s) {[hex(h) for h in cis_asked]} but LE CIS Established delivered for {[hex(h) for h in cis_done]}'))
             t2 = w.loop.create_task(host.send_command(hci.HCI_Read_BD_ADDR_Command()))
             w.loop.run_quiescent(max_steps=20000)
             w.loop.collect_exceptions()
